@@ -105,7 +105,9 @@ def perturbations(name):
                     (f'{f}+1e-7rel', f, lambda r, f=f: getattr(r, f) * (1 + 1e-7), False),
                     (f'{f} other unit same value', f, lambda r, f=f, other=other: getattr(r, f).to(other), 'by-field'),
                     (f'{f} as Angle', f, lambda r, f=f: Angle(getattr(r, f)), True),
-                    (f'{f} other unit different value', f, lambda r, f=f, other=other: u.Quantity(getattr(r, f).value, other), False)]
+                    (f'{f} other unit different value', f, lambda r, f=f, other=other: u.Quantity(getattr(r, f).value, other), False),
+                    (f'{f} other unit +3e-7rel', f, lambda r, f=f, other=other: getattr(r, f).to(other) * (1 + 3e-7), False),
+                    (f'{f} other unit -2e-6rel', f, lambda r, f=f, other=other: getattr(r, f).to(other) * (1 - 2e-6), False)]
         elif isinstance(v, str):
             out += [(f'{f} changed', f, lambda r, f=f: getattr(r, f) + '!', False),
                     (f'{f} case', f, lambda r, f=f: getattr(r, f).upper(), False)]
@@ -322,6 +324,10 @@ def change_values(name):
             out.append((f, lambda: operator.xor))
     out.append(('meta', lambda: RegionMeta({'text': 'new meta'})))
     out.append(('visual', lambda: RegionVisual({'color': 'orange'})))
+    # explicitly *empty* metadata must be taken as given, too (it is falsy)
+    out.append(('meta', lambda: RegionMeta()))
+    out.append(('visual', lambda: RegionVisual()))
+    out.append(('meta', lambda: {}))
     return out
 
 
@@ -388,7 +394,7 @@ def _mutate(obj, ev, name):
     import astropy.units as u
     kind, f = ev
     if kind == 'assign':
-        val = dict(change_values(name))[f]()
+        val = next(mk for (fld, mk) in change_values(name) if fld == f)()
         setattr(obj, f, val)
     elif kind == 'pix_attr':
         getattr(obj, f).x = 99.5
